@@ -3,7 +3,9 @@
   `parse`, `parse_xml_node_children`, `parse_xml_node`, `parse_svg_element` (attribute copy only; the
   CSS / style cascade is Resvg/SvgTree/Cascade.lean), `parse_svg_use_element` (with the expansion
   stack of fix d11e2ad), the two limits (`Generated.depthLimit`, `Generated.nodeLimit`).
-  `text` elements are leaves here (their content is handled by svgtree/text.rs).
+  The content of `text` elements is built by svgtree/text.rs `parse_svg_text_element_impl`
+  (`buildText`): spans, links, references and text paths become element nodes under the same depth
+  and node limits; character data becomes text nodes, which are not elements and are not listed.
 -/
 import Resvg.SvgTree.Cascade
 
@@ -98,6 +100,36 @@ deriving Repr
 structure Ctx where
   idMap : List (String × Xml)
 
+/-- svgtree/text.rs `parse_svg_text_element_impl`: the element children of a `text` element.
+    `a` and `tref` become `tspan`; `textPath` is kept only directly under `text`; everything else is
+    skipped with its content; a `tref` has no element content; ids are always kept.  The depth check is
+    made for every child node, as `parse_xml_node` does (fix: deep span nesting overflowed the stack). -/
+def buildText : Nat → Xml → (underText : Bool) → (depth : Nat) → (outDepth : Nat) →
+    List (List Attr) → Out → Except BuildErr Out
+  | 0, _, _, _, _, _, _ => .error .nodesLimit      -- unreachable: depth check comes first
+  | fuel + 1, parent, underText, depth, outDepth, ancestors, out =>
+    parent.children.foldl (fun acc c =>
+      match acc with
+      | .error e => .error e
+      | .ok o =>
+        if depth > Generated.depthLimit then .error .nodesLimit
+        else
+          match tagName? c with
+          | none => .ok o
+          | some tag0 =>
+            let tag1 := if tag0 == "a" then "tspan" else tag0
+            if !(tag1 == "tspan" || tag1 == "tref" || tag1 == "textPath") then .ok o
+            else if tag1 == "textPath" && !underText then .ok o
+            else
+              let isTref := tag1 == "tref"
+              let tag := if isTref then "tspan" else tag1
+              let attrs := copyAttrs tag ancestors false (xmlAttrs c)
+              if o.count > Generated.nodeLimit then .error .nodesLimit
+              else
+                let o1 : Out := { nodes := o.nodes ++ [(outDepth, tag, attrs)], count := o.count + 1 }
+                if isTref then .ok o1
+                else buildText fuel c false (depth + 1) (outDepth + 1) (attrs :: ancestors) o1) (.ok out)
+
 /-- `parse_xml_node` / `parse_xml_node_children` / `parse_svg_use_element`.
     `fuel` is derived from the depth limit (every recursive call increases `depth`), so running out
     of fuel is impossible before the depth check fires (`C01_fuel_suffices`).
@@ -120,7 +152,7 @@ def buildNode (ctx : Ctx) : Nat → Xml → (origin : Nat) → (ignoreIds : Bool
           else
             let out1 : Out := { nodes := out.nodes ++ [(outDepth, tag, attrs)], count := out.count + 1 }
             let anc' := attrs :: ancestors
-            if tag == "text" then .ok out1       -- content handled by svgtree/text.rs
+            if tag == "text" then buildText fuel node true (depth + 1) (outDepth + 1) anc' out1
             else if tag == "use" then
               -- parse_svg_use_element(node, origin, node_id, depth + 1)
               match resolveHref ctx.idMap node with
